@@ -252,3 +252,45 @@ def contexts(names):
     for n in names:
         out = [dict(c, **{n: v}) for c in out for v in (False, True)]
     return out
+
+
+class EdgeFlow:
+    """A flow-like object (state_in / edge_feasible) for a CFG with some edges removed:
+    used to specialise provenance to `assumed` outcomes of chosen branch atoms."""
+
+    def __init__(self, fn, cut_edges, base=None):
+        self.fn = fn
+        succ = fn.succ()
+        self.edge_feasible = set()
+        allowed = base.edge_feasible if base is not None else None
+        seen = set()
+        work = [0]
+        while work:
+            b = work.pop()
+            if b in seen:
+                continue
+            seen.add(b)
+            for s in succ[b]:
+                if (b, s) in cut_edges:
+                    continue
+                if allowed is not None and (b, s) not in allowed:
+                    continue
+                self.edge_feasible.add((b, s))
+                work.append(s)
+        self.state_in = [({} if i in seen else None) for i in range(len(fn.blocks))]
+
+    def reachable(self):
+        return {i for i, s in enumerate(self.state_in) if s is not None}
+
+
+def assume(fn, assumptions, ctx=None):
+    """EdgeFlow where each (atom, truth) is assumed: the opposite edge of the atom is removed."""
+    cut = set()
+    for at, truth in assumptions:
+        drop = at.false_targets if truth else at.true_targets
+        keep = at.true_targets if truth else at.false_targets
+        for d in drop:
+            if d not in keep:
+                cut.add((at.block, d))
+    base = flow(fn, ctx) if ctx else None
+    return EdgeFlow(fn, cut, base)
